@@ -43,6 +43,8 @@ def inputs_for(kind, d, limits):
         inp["upper"] = np.array([1.2, 0.9][:d])
     if kind == "EnsembleSampler":
         inp["start"] = np.array([[0.3, -0.2], [1.0, 0.4], [-0.6, 0.8], [0.1, -0.9]])[:, :d].copy()
+        if limits == "int-dtype":
+            inp["start"] = np.array([[0, -1], [2, 1], [-1, 3], [1, -2]])[:, :d].copy()  # integer dtype is a legal input
     if kind == "HamiltonianChain":
         inp["inverse_mass"] = np.array([0.8, 1.4][:d])
     return inp
@@ -248,7 +250,13 @@ def ev_shared(case):
     return {"fails": fails, "n": n, "states": len(seen), "transitions": n, "tags": tags}
 
 
-EVALUATORS = {"history": ev_history, "shared": ev_shared}
+def ev_exchange(case):
+    from checks.c08 import ev_exchange as _ev
+
+    return _ev(case)
+
+
+EVALUATORS = {"history": ev_history, "shared": ev_shared, "exchange": ev_exchange}
 
 
 def run(ck):
@@ -256,7 +264,9 @@ def run(ck):
     bound = 2 if ck.quick else 3
     cases = []
     for kind in SAMPLERS:
-        for limits in (None, "box"):
+        for limits in (None, "box", "int-dtype"):
+            if limits == "int-dtype" and kind != "EnsembleSampler":
+                continue
             for T in (1.0, 2.5):
                 if kind == "EnsembleSampler" and T != 1.0:
                     continue
@@ -279,6 +289,10 @@ def run(ck):
                     continue
                 sc.append(dict(sampler=kind, T=T, limits=limits, d=2, length=4 if ck.quick else 6))
     ck.run_cases("shared", sc, chunk=1)
+    # points installed by a parallel-tempering exchange (shared with C08's exchange evaluator)
+    ck.run_cases("exchange", [dict(chains=k, N=N, seed=1 + ck.seed, presteps=pre, ladder=lad)
+                              for k, N, pre, lad in (("GibbsChain", 2, 1, "sorted"), ("GibbsChain", 3, 2, "unsorted"), ("HamiltonianChain", 3, 1, "sorted"),
+                                                     ("PcaChain", 2, 1, "unsorted"))], chunk=1)
     ck.rule = ("every history of the listed depth over {take_step, advance(1), advance(3)} per sampler x limits x T x d, each explored over all outcomes of the "
                "scripted random stream within the deviation bound; invariant after every call. Distinct non-trivial = (sampler/limits, T, decision kind reached)")
     ck.assume("posterior is a fixed smooth function; draws restricted to a 2-letter normal alphabet and 2 quantiles; deviation bound %d" % bound)
